@@ -23,6 +23,7 @@ RULE = ('Hypothesis generates arrays with a distinct value in every (model, aper
         'Entries: sed (SED.write/read), cube (SEDCube.write/read/get_sed), conv (ConvolvedFluxes.write/read), foreign '
         '(files written by the independent writer, incl. the legacy unit strings, read by the library). Non-trivial = >= 3 '
         'wavelengths with a non-palindromic spectrum; distinct = distinct canonical JSON.')
+RULE += (' ' + 'Also varied: an older compressed copy <name>.gz next to the SED file being written, error units, second cube with permuted names.')
 ASSUMPTIONS = [
     'values are requested in the unit they were stored in; equality within 1e-13 relative (unit algebra rounds), exact '
     'for convolved-flux tables',
